@@ -30,6 +30,20 @@ def should_ignore_errors(ignored_paths: set[str], path: Path):
 
 
 def is_safe_path(root_path: Path, path: Path):
+    # The path must never climb above its starting directory, whatever that
+    # directory is named: the same relative path is later joined to other roots
+    if path.is_absolute():
+        return False
+
+    depth = 0
+    for part in path.parts:
+        if part == "..":
+            depth -= 1
+            if depth < 0:
+                return False
+        else:
+            depth += 1
+
     return (root_path / path).resolve().is_relative_to(root_path.resolve())
 
 
